@@ -470,7 +470,11 @@ pub fn gen_generic(f: &Form, i: usize, k: &Knobs, rng: &mut Rng) -> Case {
             t
         }
     };
-    let stack = |rng: &mut Rng, pool: Pool| -> u32 { pick_addr(pool, 4, rng) & !3 };
+    // stack pointers are even; one in three is 2 mod 4 (long frames need word alignment only)
+    let stack = |rng: &mut Rng, pool: Pool| -> u32 {
+        let a = pick_addr(pool, 4, rng) & !3;
+        if rng.chance(1, 3) { a | 2 } else { a }
+    };
     match mn {
         "BCC" => {
             // condition and CCR systematic: 16 x 256
